@@ -1,6 +1,7 @@
 package main
 
 import (
+	"github.com/datastax/go-cassandra-native-protocol/frame"
 	"encoding/hex"
 	"fmt"
 	"strings"
@@ -28,6 +29,7 @@ func runRoute(op string) (out string) {
 		}
 	}()
 	ks, q, prevKs, failKs := "", "", "", ""
+	payloadKey := ""
 	hasPrev := false
 	version := primitive.ProtocolVersion4
 	for _, t := range strings.Fields(op) {
@@ -43,6 +45,8 @@ func runRoute(op string) (out string) {
 				b, _ := hex.DecodeString(t[2:])
 				prevKs = string(b)
 			}
+		case strings.HasPrefix(t, "Y:"): // the observed requests carry a custom payload with this key
+			payloadKey = t[2:]
 		case strings.HasPrefix(t, "F:"):
 			b, _ := hex.DecodeString(t[2:])
 			failKs = string(b)
@@ -103,7 +107,15 @@ func runRoute(op string) (out string) {
 	}
 	observe := func(msg message.Message) (string, *e2e.Reply) {
 		before := env.Cluster.LogLen()
-		_ = cl.Send(2, msg)
+		if payloadKey != "" {
+			b, err := cl.Encode(2, msg, func(f *frame.Frame) { f.SetCustomPayload(map[string][]byte{payloadKey: []byte("g")}) })
+			if err != nil {
+				return "unencodable", nil
+			}
+			_ = cl.WriteBytes(b)
+		} else {
+			_ = cl.Send(2, msg)
+		}
 		r, err := cl.Recv(3 * time.Second)
 		if err != nil {
 			return "none", nil
@@ -163,6 +175,10 @@ func genRoute(e *emitter, r *rng.R, n int, tier string) {
 		}
 		q := varyCaseWs(rr, "SELECT "+rr.Pick([]string{"*", "key", "count(*)"})+" FROM "+qual+tbl)
 		ops = append(ops, fmt.Sprintf("V:%d T:%d K:%s %s", []int{3, 4, 4, 5, 65, 66}[rr.Intn(6)], b2i(ksSys && tblSys), k, hx(q)))
+		if rr.Intn(3) == 0 { // the same with a custom payload, under the keys the proxy itself looks at and others
+			ops = append(ops, fmt.Sprintf("V:%d T:%d K:%s Y:%s %s", []int{4, 4, 5, 65, 66}[rr.Intn(5)], b2i(ksSys && tblSys), k,
+				rr.Pick([]string{"graph-source", "graph-language", "graph-name", "graph-results", "graph-read-consistency", "request-id", "k", "graph-source"}), hx(q)))
+		}
 		if rr.Intn(3) == 0 { // a rejected USE in between: of the system keyspace when the current one is not, of another one when it is
 			inSys := strings.EqualFold(ks, "system") || ks == "\"system\""
 			ops = append(ops, fmt.Sprintf("V:4 T:%d K:%s F:%s %s", b2i(ksSys && tblSys), k, hx(map[bool]string{true: rr.Pick([]string{"gone", "\"Gone\""}), false: rr.Pick([]string{"system", "SYSTEM", "\"system\""})}[inSys]), hx(q)))
